@@ -11,7 +11,7 @@ Tie K: (a) universe construction: real DimensionUniverse(elements, kinds, requir
            join-table names and unknown names + conform("name"): names, required, implied, elements, governors,
            skypix, data_coordinate_keys, lookup_order vs Model/Universe.v:mkgroup;
        (c) pairs of distinct groups: | & <= == hash isdisjoint vs gunion / ginter / gsubset / geqb / ghash
-           (cases are table indices: Model/GroupXCheck.v chk_pair_ix);
+           (compact cases -- operand = table index, result = bit mask over the universe order: Model/GroupXCheck.v);
        (d) the GENERATED algorithms vs the implementation: a sample of constructor cases (chk_gen_group, incl.
            data_coordinate_keys) and n-ary union / intersection with 0..4 other operands + comparisons (chk_nary).
 Oracle: the property statement evaluated on the implementation's observations with an independent fixpoint
@@ -395,9 +395,11 @@ def run_universe(ctx: Ctx, ident: str, uvar: str, results: list, acc: Acc):
             A, B = set(tbl[i]), set(tbl[j])
             if not (A <= B or B <= A):
                 ctx.nontrivial({"u": ident, "a": tbl[i], "b": tbl[j]})
-        # pairs refer to the groups by index into ONE table per universe (Cases/C12/tables.v)
+        # compact pair cases: operands = index into ONE table of operand groups per universe (Cases/C12/tables.v),
+        # results = bit masks over the universe's element order (Model/GroupXCheck.v: chk_pair_ix)
         uv, gtab = acc.tables.setdefault(ident, (uvar, []))
         pos = acc.pos.setdefault(ident, {})
+        bit = {n: k for k, n in enumerate(sp.order)}
 
         def ix(names, gtab=gtab, pos=pos):
             key = tuple(names)
@@ -406,9 +408,30 @@ def run_universe(ctx: Ctx, ident: str, uvar: str, results: list, acc: Acc):
                 k = pos[key] = len(gtab)
                 gtab.append(list(names))
             return k
+
+        masks = {}
+
+        def mask(gid, tbl=tbl, bit=bit, masks=masks):
+            m = masks.get(gid)
+            if m is None:
+                names = tbl[gid]
+                if any(n not in bit for n in names):
+                    return None
+                m = sum(1 << bit[n] for n in set(names))
+                if [n for n in sp.order if n in set(names)] != list(names):
+                    # the mask would hide it: names of a result group not in universe order / with duplicates
+                    if not custom:
+                        ctx.oracle_fail("names-order", {"universe": ident, "op": "pair-result", "names": names},
+                                        "the names of a union / intersection result are not in universe order")
+                    return None
+                masks[gid] = m
+            return m
         for r in res["pairs"]:
-            a, b, un, it = (ix(tbl[r[k]]) for k in range(4))
-            acc.p.append((f"(T_{ident}, ({a}%N, {b}%N, {un}%N, {it}%N, {clist(cbool(x) for x in r[4:])}))", (ident, tbl, r)))
+            mu, mi = mask(r[2]), mask(r[3])
+            if mu is None or mi is None:
+                ctx.tie_broken("correspondence", "pairs", f"result group of {tbl[r[0]]} , {tbl[r[1]]} cannot be encoded: {tbl[r[2]]} / {tbl[r[3]]}")
+                continue
+            acc.p.append((f"(T_{ident}, ({ix(tbl[r[0]])}%N, {ix(tbl[r[1]])}%N, {mu}%N, {mi}%N, {clist(cbool(x) for x in r[4:])}))", (ident, tbl, r)))
         ctx.hist("pairs", ident, len(res["pairs"]))
         for row in res.get("nary", []):
             if isinstance(row[2], str):
@@ -534,9 +557,9 @@ def _main(ctx: Ctx, srcs, quick: bool, model: bool = True):
         if ident == "current":
             pl = payloads_for(ctx, ident, path, exhaustive=True, nrandom=2000 if quick else 6000,
                               pairs=40000 if quick else "all", triples=20000 if quick else 200000,
-                              slices=0 if quick else 3, extra_subsets=extra, nary=1200 if quick else 6000)
+                              slices=0 if quick else 3, extra_subsets=extra, nary=800 if quick else 6000)
         elif quick:
-            pl = payloads_for(ctx, ident, path, exhaustive=False, nrandom=150, pairs=2000, triples=1000, slices=0, extra_subsets=extra, nary=60)
+            pl = payloads_for(ctx, ident, path, exhaustive=False, nrandom=150, pairs=2000, triples=1000, slices=0, extra_subsets=extra, nary=40)
         else:
             pl = payloads_for(ctx, ident, path, exhaustive=True, nrandom=1500, pairs="all", triples=20000, slices=2, extra_subsets=extra, nary=600)
         jobs.append((ident, uvar, pl))
